@@ -359,7 +359,8 @@ Definition class_invs (w : world) (k : nat) (which : inv_list) : list contract :
 
 (** ** Declarations *)
 Record mdecl := { md_name : string; md_kind : mkind; md_async : bool; md_sig : sig; md_decos : list deco;
-                  md_inherit : bool }.   (* an accessor added to the property inherited from the first base: @Base.p.setter *)
+                  md_inherit : option nat }.   (* an accessor added to the property of the n-th direct base:
+                                                  @Base.p.setter *)
 Record idecl := { id_contract : contract; id_check_on : check_on; id_enabled : bool; id_invalid : option string }.
 Record cdecl := {
   cd_bases : list nat;
@@ -373,9 +374,9 @@ Inductive defop :=
 
 (** building the namespace: accessors of one property are combined into one property object *)
 (** the property an accessor is attached to: the one being built in this class body, or - for
-    [@Base.p.setter] - the one the first base shows under that name.  The decorator expression is
+    [@Base.p.setter] - the one that base shows under that name.  The decorator expression is
     evaluated before the contract decorators below it are constructed. *)
-Definition prop_start (w : world) (bases : list nat) (inherit : bool) (ns : list (string * member)) (name : string)
+Definition prop_start (w : world) (bases : list nat) (inherit : option nat) (ns : list (string * member)) (name : string)
            (k : mkind) : res (option member) :=
   match k with
   | MPlain | MStatic | MClassM => Ok None
@@ -383,15 +384,17 @@ Definition prop_start (w : world) (bases : list nat) (inherit : bool) (ns : list
     match ns_get ns name with
     | Some m => Ok (Some m)
     | None =>
-        if inherit then
-          match bases with
-          | b :: _ => match class_getattr w b name with
-                      | Some (MemProp g s d) => Ok (Some (MemProp g s d))
-                      | _ => Err "AttributeError"
-                      end
-          | [] => Err "NameError"
-          end
-        else Ok None
+        match inherit with
+        | Some j =>
+            match nth_error bases j with
+            | Some b => match class_getattr w b name with
+                        | Some (MemProp g s d) => Ok (Some (MemProp g s d))
+                        | _ => Err "AttributeError"
+                        end
+            | None => Err "NameError"
+            end
+        | None => Ok None
+        end
     end
   end.
 
